@@ -46,6 +46,11 @@ fn observe_glob(g: &Glob<'_>, paths: &[String]) -> Vec<String> {
         });
         let owned: Option<Vec<Option<String>>> =
             m.map(|m| m.into_owned()).map(|m| (0..=n + 2).map(|i| m.get(i).map(String::from)).collect());
+        // owned matched text returns the same captures as the borrowed text it was made from
+        let borrowed_texts: Option<Vec<Option<String>>> = caps.as_ref().map(|v| v.iter().map(|c| c.as_ref().map(|x| x.1.clone())).collect());
+        if owned != borrowed_texts {
+            out.push(format!("!owned-differs on {:?}: borrowed {:?}, owned {:?}", p, borrowed_texts, owned));
+        }
         out.push(format!("{:?}: is={} matched={:?} owned={:?}", p, is, caps, owned));
     }
     out
@@ -137,6 +142,9 @@ impl Property for C19 {
                 Err(_) => return Ok(None),
             };
             let o0 = observe_glob(&g0, &case.paths);
+            if let Some(l) = o0.iter().find(|l| l.starts_with("!owned-differs")) {
+                return Err(format!("`{}`: owned matched text differs from the borrowed matched text it was made from: {}", text, &l[1..]));
+            }
             let shown = g0.to_string();
             if shown != text {
                 return Err(format!("`{}` displays as `{}`", text, shown));
